@@ -21,7 +21,20 @@ type subTask interface {
 type subscriptions []Subscription
 
 func (s subscriptions) applyTo(d *subscriptions) {
-	*d = append(*d, s...)
+	for _, sub := range s {
+		replaced := false
+		for i := range *d {
+			if (*d)[i].Topic == sub.Topic {
+				// Subscribing to an already subscribed filter replaces the subscription.
+				(*d)[i] = sub
+				replaced = true
+				break
+			}
+		}
+		if !replaced {
+			*d = append(*d, sub)
+		}
+	}
 }
 
 type unsubscriptions []string
@@ -29,7 +42,7 @@ type unsubscriptions []string
 func (s unsubscriptions) applyTo(d *subscriptions) {
 	l := len(*d)
 	for _, topic := range s {
-		for i, e := range *d {
+		for i, e := range (*d)[:l] {
 			if e.Topic == topic {
 				l--
 				(*d)[i] = (*d)[l]
